@@ -64,6 +64,7 @@ type Ctx struct {
 	refuted    map[string]bool           // callee clauses known to be false on the real code (known findings): never assumed
 	addrVals   map[string]Addr           // contract-level stand-ins for addresses of locals / elements
 	property   string                    // the property being checked (some property-derived obligations are raised only under their property)
+	heapTyp    map[string]types.Type     // field heap key -> Go type of the field (where known)
 	skipProp   func(props []string) bool // ensures clauses of other properties are not checked in this run
 }
 
@@ -408,6 +409,12 @@ func (c *Ctx) paramVar(st *State, key, srt string) string {
 }
 
 func (c *Ctx) heapGet(st *State, key string, elem types.Type) string {
+	if elem != nil {
+		if c.heapTyp == nil {
+			c.heapTyp = map[string]types.Type{}
+		}
+		c.heapTyp[key] = elem
+	}
 	if st.param != nil {
 		srt := c.heapSrt[key]
 		if elem != nil {
@@ -469,6 +476,10 @@ func (c *Ctx) heapGetSort(st *State, key, srt string) string {
 func (c *Ctx) elemHeap(st *State, elem types.Type) (string, string) {
 	es := c.sortOf(elem)
 	key := "E:" + sanitize(types.TypeString(elem, func(p *types.Package) string { return p.Name() }))
+	if c.heapTyp == nil {
+		c.heapTyp = map[string]types.Type{}
+	}
+	c.heapTyp[key] = elem
 	_, known := c.heap0[key]
 	h := c.heapGetSort(st, key, fmt.Sprintf("(Array Int (Array Int %s))", es))
 	if !known && st.param == nil {
@@ -672,6 +683,10 @@ func (c *Ctx) mapHeaps(st *State, m *types.Map) (kd, kv, dom, val string) {
 	ks, vs := c.sortOf(m.Key()), c.sortOf(m.Elem())
 	tn := sanitize(types.TypeString(m, func(p *types.Package) string { return p.Name() }))
 	kd, kv = "Mdom:"+tn, "Mval:"+tn
+	if c.heapTyp == nil {
+		c.heapTyp = map[string]types.Type{}
+	}
+	c.heapTyp[kv] = m
 	if _, seen := c.heapSrt[kd]; !seen && st.param == nil {
 		d0 := c.heapGetSort(&State{heap: map[string]string{}}, kd, fmt.Sprintf("(Array Int (Array %s Bool))", ks))
 		c.defs = append(c.defs, fmt.Sprintf("(assert (= (select %s 0) ((as const (Array %s Bool)) false)))", d0, ks))
@@ -1457,6 +1472,17 @@ func (fr *Frame) run(st0 *State) {
 				fr.assume(st, fmt.Sprintf("(>= %s %s)", na, before))
 				st.heap[allocKey] = na
 			}
+			// every reference held in a field the loop may have written was allocated no later than now (at the loop head);
+			// without this a field value first read after a call in the body would only be known to precede that call's return
+			for _, key := range keys {
+				et := c.heapTyp[key]
+				if et == nil {
+					continue
+				}
+				for _, rp := range c.refPaths(fmt.Sprintf("(select %s r_h)", st.heap[key]), et, 0) {
+					fr.assume(st, fmt.Sprintf("(forall ((r_h Int)) (! %s :pattern ((select %s r_h))))", strings.ReplaceAll(rp, "$B", fr.allocTerm(st)), st.heap[key]))
+				}
+			}
 			for _, a := range cells {
 				if t, ok := st.cells[cellKey{a, ""}]; ok {
 					et := a.Type().(*types.Pointer).Elem()
@@ -1515,6 +1541,27 @@ func (fr *Frame) run(st0 *State) {
 							arrs = append(arrs, fmt.Sprintf("(sl.arr %s)", w))
 						}
 						fr.havocHeapKey(st, k, fr.allocTerm(fr.entry), fr.fnModMaps, fr.fnModInner, arrs, "hvR")
+					}
+				}
+				// whatever the loop stored into those arrays and maps was allocated no later than now (at the loop head)
+				for _, k := range hk {
+					ty := c.heapTyp[k]
+					if ty == nil {
+						continue
+					}
+					if strings.HasPrefix(k, "E:") {
+						for _, rp := range c.refPaths(fmt.Sprintf("(select (select %s a_h) i_h)", st.heap[k]), ty, 0) {
+							fr.assume(st, fmt.Sprintf("(forall ((a_h Int) (i_h Int)) (! %s :pattern ((select (select %s a_h) i_h))))", strings.ReplaceAll(rp, "$B", fr.allocTerm(st)), st.heap[k]))
+						}
+						if ef := c.eltFn(ty); ef != "" && c.dts["elt_"+k[2:]] {
+							for _, rp := range c.refPaths(fmt.Sprintf("(%s %s s_h i_h)", ef, st.heap[k]), ty, 0) {
+								fr.assume(st, fmt.Sprintf("(forall ((s_h Slice) (i_h Int)) (! %s :pattern ((%s %s s_h i_h))))", strings.ReplaceAll(rp, "$B", fr.allocTerm(st)), ef, st.heap[k]))
+							}
+						}
+					} else if mt, isM := ty.(*types.Map); isM && strings.HasPrefix(k, "Mval:") {
+						for _, rp := range c.refPaths(fmt.Sprintf("(select (select %s m_h) k_h)", st.heap[k]), mt.Elem(), 0) {
+							fr.assume(st, fmt.Sprintf("(forall ((m_h Int) (k_h %s)) (! %s :pattern ((select (select %s m_h) k_h))))", c.sortOf(mt.Key()), strings.ReplaceAll(rp, "$B", fr.allocTerm(st)), st.heap[k]))
+						}
 					}
 				}
 			}
@@ -2171,6 +2218,22 @@ func (fr *Frame) step(st *State, in ssa.Instruction) bool {
 				if g, isG := x.X.(*ssa.Global); isG {
 					fr.vals[x] = Val{c.globalConst(g.Name(), x.Type()), x.Type()}
 					return true
+				}
+				if pt, isP := x.X.Type().Underlying().(*types.Pointer); isP {
+					if n, isN := pt.Elem().(*types.Named); isN {
+						if stt, isS := n.Underlying().(*types.Struct); isS && c.sortOf(n) != "U" && !isSyncMap(n) {
+							// *p for a pointer to a repository struct: the value assembled from the per-field heaps
+							pv := fr.val(x.X)
+							fr.obligeAt(st, "safety.nil", "sel", fmt.Sprintf("(not (= %s 0))", pv.T), x.Pos())
+							var fs []string
+							for i := 0; i < stt.NumFields(); i++ {
+								key, ft := c.heapKey(n, i)
+								fs = append(fs, fmt.Sprintf("(select %s %s)", c.heapGet(st, key, ft), pv.T))
+							}
+							fr.vals[x] = Val{fmt.Sprintf("(mk-%s %s)", c.sortOf(n), strings.Join(fs, " ")), x.Type()}
+							return true
+						}
+					}
 				}
 				c.note("%s: load through unknown address %s", fr.fname, x.X.Name())
 				fr.vals[x] = Val{c.fresh("ld", c.sortOf(x.Type())), x.Type()}
@@ -2872,6 +2935,13 @@ func (fr *Frame) call(st *State, x *ssa.Call) bool {
 	case "strings.TrimLeft", "strings.TrimRight", "strings.TrimPrefix0":
 		// the result is a suffix (TrimLeft) / prefix (TrimRight) of the argument
 		sv := fr.val(x.Call.Args[0]).T
+		if k, ok := x.Call.Args[1].(*ssa.Const); ok && full == "strings.TrimRight" && k.Value != nil && asciiOnly(constant.StringVal(k.Value)) {
+			// constant ASCII cutset: the result is the prefix of length trimright_<bytes>(s): everything from there on is
+			// in the cutset, the byte before it (if any) is not
+			fn := c.trimRightFn(constant.StringVal(k.Value))
+			setRes(Val{fmt.Sprintf("(substr %s 0 (%s %s))", sv, fn, sv), x.Type()})
+			return true
+		}
 		r := c.fresh("trimmed", "Str")
 		if full == "strings.TrimLeft" {
 			fr.assume(st, fmt.Sprintf("(and (<= (slen %s) (slen %s)) (= %s (substr %s (- (slen %s) (slen %s)) (slen %s))))", r, sv, r, sv, sv, r, sv))
@@ -2888,6 +2958,17 @@ func (fr *Frame) call(st *State, x *ssa.Call) bool {
 		return true
 	case "unicode.IsLetter":
 		setRes(Val{fmt.Sprintf("(unicodeIsLetter %s)", fr.val(x.Call.Args[0]).T), x.Type()})
+		return true
+	case "strconv.Atoi":
+		// decimal parsing: a function of the string (atoiok: it is a decimal integer in range; atoival: its value)
+		c.sortOf(x.Call.Signature().Results().At(1).Type()) // declares the interface sort
+		sv := fr.val(x.Call.Args[0])
+		e := c.fresh("atoierr", "Iface")
+		fr.assume(st, fmt.Sprintf("(= (= %s ifnil) (atoiok %s))", e, sv.T))
+		setRes(Val{fmt.Sprintf("(ite (atoiok %s) (atoival %s) 0)", sv.T, sv.T), x.Call.Signature().Results().At(0).Type()}, Val{e, x.Call.Signature().Results().At(1).Type()})
+		return true
+	case "unicode.IsDigit":
+		setRes(Val{fmt.Sprintf("(unicodeIsDigit %s)", fr.val(x.Call.Args[0]).T), x.Type()})
 		return true
 	}
 	if callee.Blocks == nil || callee.Pkg == nil || !strings.HasPrefix(callee.Pkg.Pkg.Path(), "github.com/juev/hledger-lsp") {
@@ -3199,6 +3280,39 @@ func (fr *Frame) opaqueResults(st *State, hint string, t types.Type) []Val {
 		vs = append(vs, v)
 	}
 	return vs
+}
+
+func asciiOnly(s string) bool {
+	for i := 0; i < len(s); i++ {
+		if s[i] >= 128 {
+			return false
+		}
+	}
+	return len(s) > 0
+}
+
+// trimRightFn declares (once) the spec function of strings.TrimRight(s, cutset) for a constant ASCII cutset: the length
+// of the result.
+func (c *Ctx) trimRightFn(cutset string) string {
+	name := "trimright"
+	var in []string
+	for i := 0; i < len(cutset); i++ {
+		name += fmt.Sprintf("_%02x", cutset[i])
+		in = append(in, fmt.Sprintf("(= c %d)", cutset[i]))
+	}
+	if !c.dts[name] {
+		c.dts[name] = true
+		cut := "(or " + strings.Join(in, " ") + ")"
+		if len(in) == 1 {
+			cut = in[0]
+		}
+		c.dtDecls = append(c.dtDecls,
+			fmt.Sprintf("(declare-fun %s (Str) Int)", name),
+			fmt.Sprintf("(define-fun %s_in ((c Int)) Bool %s)", name, cut),
+			fmt.Sprintf("(assert (forall ((s Str)) (! (and (<= 0 (%s s)) (<= (%s s) (slen s)) (=> (> (%s s) 0) (not (%s_in (sat s (- (%s s) 1)))))) :pattern ((%s s)))))", name, name, name, name, name, name),
+			fmt.Sprintf("(assert (forall ((s Str) (i Int)) (! (=> (and (<= (%s s) i) (< i (slen s))) (%s_in (sat s i))) :pattern ((%s s) (sat s i)))))", name, name, name))
+	}
+	return name
 }
 
 func isByteSlice(t types.Type) bool {
